@@ -40,6 +40,9 @@ type arapCase struct {
 	MinIt  int  `json:"minit,omitempty"`
 	ZeroIt bool `json:"zeroit,omitempty"`
 	Guess  bool `json:"guess,omitempty"`
+	// UnitLog10: the mesh and the translation are given in units of 10^UnitLog10 (0 = as built); every tolerance
+	// below is relative to the size of the input, and so is the library's stopping rule
+	UnitLog10 int `json:"unit_log10,omitempty"`
 }
 
 var arapKinds = []string{"icosphere", "icosphere", "subbox", "torus", "cylinder", "csg", "field", "polar", "icosahedron"}
@@ -72,6 +75,9 @@ func genARAP(t *rapid.T) arapCase {
 	}
 	c.MinIt = pickOf(t, []int{0, 0, 1, 3}, "minit")
 	c.ZeroIt = gen.Int(t, 0, 5, "zeroit") == 0
+	if gen.Int(t, 0, 2, "units") == 0 {
+		c.UnitLog10 = pickOf(t, []int{-6, -4, -3, -2, 2, 4}, "unit_log10")
+	}
 	return c
 }
 
@@ -86,6 +92,16 @@ func checkARAP(c arapCase, o *kit.Obs) error {
 	if skip != "" {
 		o.Skip(skip)
 		return nil
+	}
+	if c.UnitLog10 != 0 {
+		k := math.Pow(10, float64(c.UnitLog10))
+		for i := range in {
+			for j := range in[i] {
+				in[i][j] = in[i][j].Scale(k)
+			}
+		}
+		c.T = c.T.Scale(k)
+		o.Labelf("arap:unit-1e%d", c.UnitLog10)
 	}
 	rep, bad := validInput3(in)
 	if bad != "" {
